@@ -25,7 +25,7 @@ Definition idb (v2 : bool) (j : Z) : list Z :=
   if v2 then [Z.land j 255; Z.land (Z.shiftr j 8) 255] else [j].
 Definition lim (v2 : bool) : Z := if v2 then 65536 else 256.
 
-Lemma item_req_idb v2 j : item_req v2 j = (if v2 then 2 else 0) :: idb v2 j.
+Lemma item_req_idb v2 j : item_req v2 j = item_cmd v2 :: idb v2 j.
 Proof. destruct v2; reflexivity. Qed.
 
 Lemma idb_len v2 j : List.length (idb v2 j) = il v2.
@@ -65,9 +65,9 @@ Proof. intros <-. apply firstn_app_exact. Qed.
 Lemma skipn_il_app v2 (ib rest : list Z) : List.length ib = il v2 -> skipn (il v2) (ib ++ rest) = rest.
 Proof. intros <-. apply skipn_app_exact. Qed.
 
-Lemma on_packet_elem c cache v2 req n crc t cmd ib rest :
+Lemma on_packet_elem c cache v2 req n crc t ib rest :
   List.length ib = il v2 ->
-  on_packet c cache (mkF true PElem v2 req n crc t) 0 (cmd :: ib ++ rest) =
+  on_packet c cache (mkF true PElem v2 req n crc t) 0 (item_cmd v2 :: ib ++ rest) =
   if negb (le_val ib =? req) then (mkF true PElem v2 req n crc t, []) else
   match parse c (le_val ib) rest with
   | Raise e => (mkF true PElem v2 req n crc t, [Raised e])
@@ -79,16 +79,24 @@ Lemma on_packet_elem c cache v2 req n crc t cmd ib rest :
 Proof.
   intros Hl. unfold on_packet.
   cbn [f_reg f_phase f_v2 f_req f_n f_crc f_toc negb tl]. change (0 =? 0) with true. cbn [negb].
+  rewrite Z.eqb_refl. cbn [negb].
   fold (il v2).
   assert (Hlen : (List.length (ib ++ rest) <? il v2)%nat = false).
   { rewrite app_length, Hl. apply Nat.ltb_ge. lia. }
   rewrite Hlen, (firstn_il_app v2 ib rest Hl), (skipn_il_app v2 ib rest Hl). reflexivity.
 Qed.
 
-Lemma on_packet_info c cache v2 t0 cmd n crc extra :
+Lemma on_packet_elem_info c cache v2 req n crc t rest :
+  on_packet c cache (mkF true PElem v2 req n crc t) 0 (info_cmd v2 :: rest) = (mkF true PElem v2 req n crc t, []).
+Proof.
+  unfold on_packet. cbn [f_reg f_phase f_v2 negb]. change (0 =? 0) with true. cbn [negb].
+  destruct v2; reflexivity.
+Qed.
+
+Lemma on_packet_info c cache v2 t0 n crc extra :
   0 <= n < lim v2 -> 0 <= crc < 2 ^ 32 ->
   on_packet c cache (mkF true PInfo v2 (-1) (-1) 0 t0) 0
-            (cmd :: le_bytes (il v2) n ++ le_bytes 4 crc ++ extra) =
+            (info_cmd v2 :: le_bytes (il v2) n ++ le_bytes 4 crc ++ extra) =
   match cache_hit c (cache crc) with
   | Some t => (mkF false PInfo v2 (-1) n crc t, [Finished])
   | None =>
@@ -98,6 +106,7 @@ Lemma on_packet_info c cache v2 t0 cmd n crc extra :
 Proof.
   intros Hn Hc. unfold on_packet.
   cbn [f_reg f_phase f_v2 f_req f_n f_crc f_toc negb tl]. change (0 =? 0) with true. cbn [negb].
+  rewrite Z.eqb_refl. cbn [negb].
   fold (il v2).
   assert (Hl : List.length (le_bytes (il v2) n) = il v2) by apply le_bytes_length.
   assert (Hlen : (List.length (le_bytes (il v2) n ++ le_bytes 4 crc ++ extra)
@@ -191,7 +200,7 @@ Section Fetch.
 
   Lemma dev_reply_info :
     dev_reply v2 d (info_req v2) =
-    Some ((if v2 then 3 else 1) :: le_bytes (il v2) n ++ le_bytes 4 crc ++ extra).
+    Some (info_cmd v2 :: le_bytes (il v2) n ++ le_bytes 4 crc ++ extra).
   Proof.
     unfold dev_reply, d, n. cbn [d_items d_crc d_extra].
     rewrite (raw_items_length _ _ _ Hraw). destruct v2; reflexivity.
@@ -201,7 +210,7 @@ Section Fetch.
     nth_error items j = Some it ->
     exists tb, type_byte c it = Some tb /\
       dev_reply v2 d (item_req v2 (Z.of_nat j)) =
-      Some ((if v2 then 2 else 0) :: idb v2 (Z.of_nat j) ++ tb :: di_group it ++ [0] ++ di_name it ++ [0]).
+      Some (item_cmd v2 :: idb v2 (Z.of_nat j) ++ tb :: di_group it ++ [0] ++ di_name it ++ [0]).
   Proof.
     intros Hj. destruct (raw_items_nth _ _ _ _ _ Hraw Hj) as (tb & Htb & Hr).
     exists tb. split; [exact Htb|].
@@ -293,13 +302,12 @@ Section Fetch.
             auto; rewrite ?E0; auto; rewrite ?Hf, ?Hi; reflexivity.
     - (* downloading element k0 *)
       rewrite Hs in Erq. destruct k as [|j].
-      + (* a duplicate of the INFO reply: its identifier field is n <> k0 *)
+      + (* a duplicate of the INFO reply *)
         cbn in Erq. injection Erq as <-. rewrite dev_reply_info in Erp. apply Some_inj in Erp. subst rp.
         apply Hign.
         * now apply InvElem.
-        * rewrite (on_packet_elem c cache v2 _ _ _ _ _ (le_bytes (il v2) n) _ (le_bytes_length _ _)).
-          rewrite le_bytes_il_val by (unfold n in *; lia).
-          destruct (n =? Z.of_nat k0) eqn:E; [unfold n in E; lia|reflexivity].
+        * (* since fix F03a it is recognised by its command byte *)
+          apply on_packet_elem_info.
       + cbn [nth_error] in Erq.
         destruct (Nat.lt_ge_cases j (S k0)) as [Hj|Hj].
         2:{ rewrite item_reqs_nth_none in Erq by lia. discriminate. }
@@ -307,7 +315,7 @@ Section Fetch.
         destruct (nth_error items j) as [it|] eqn:Eit.
         2:{ apply nth_error_None in Eit. lia. }
         destruct (dev_reply_item j it Eit) as (tb & Htb & Erp'). rewrite Erp' in Erp. apply Some_inj in Erp. subst rp.
-        rewrite (on_packet_elem c cache v2 _ _ _ _ _ (idb v2 (Z.of_nat j)) _ (idb_len _ _)).
+        rewrite (on_packet_elem c cache v2 _ _ _ _ (idb v2 (Z.of_nat j)) _ (idb_len _ _)).
         rewrite idb_val by (unfold n in Hn; lia).
         destruct (Z.of_nat j =? Z.of_nat k0) eqn:Ejk; cbn [negb].
         2:{ (* stale or duplicated element reply *)
